@@ -43,7 +43,40 @@ Definition skip (m : dev_map) (port a : N) : bool :=
 Definition caps_t := option (N * N * list N).     (* manufacturer, model, firmware *)
 Definition ident_t := option (N * list N).        (* id type, reader id *)
 
+(* ---- a probed host as a SCRIPT: what it sends when ----
+   The client's side of a probe is fixed (first message, GET_SUPPORTED_VERSION, perhaps
+   SET_PROTOCOL_VERSION, GET_READER_CONFIG, GET_READER_CAPABILITIES, CLOSE_CONNECTION), so a host
+   is described by what it does about each of these and by the traffic it sends unasked.
+   Times are ticks; delays of answers count from the moment the request is written; [s_hangup],
+   [s_chat] and [s_period] count from the moment the connection is accepted. *)
+Inductive answer :=
+| Ans (delay : N) (ok : bool)  (* a complete reply arrives [delay] after the request; ok: it is the expected
+                                  message with a success status (for the first message: a successful
+                                  ConnectionAttemptEvent); not ok: error status / ERROR_MESSAGE / another type *)
+| NoAns.                       (* no complete reply, ever (silence, or a reply that never completes) *)
+
+Inductive dial_outcome := DialRefused | DialNever | DialAccept (d : N).
+
+Record script := mk_script {
+  s_dial : dial_outcome;
+  s_hello : answer;           (* the first complete message the host sends (delay counted from accept) *)
+  s_version : answer;         (* GET_SUPPORTED_VERSION *)
+  s_setver : option answer;   (* SET_PROTOCOL_VERSION; None: the reader stays at 1.0.1 and none is sent *)
+  s_config : answer;          (* GET_READER_CONFIG; an ok answer carries [s_ident] *)
+  s_ident : ident_t;
+  s_caps : answer;            (* GET_READER_CAPABILITIES; an ok answer carries [s_capsv] *)
+  s_capsv : caps_t;
+  s_close : answer;           (* CLOSE_CONNECTION; not ok = the reader refuses / answers something else *)
+  s_close_other : bool;       (* a not-ok answer is an ERROR_MESSAGE or another message type (true), or a
+                                 CLOSE_CONNECTION_RESPONSE carrying an error status (false) *)
+  s_fin : bool;               (* after a positive CLOSE_CONNECTION_RESPONSE the host closes the TCP connection *)
+  s_hangup : option N;        (* the host closes the TCP connection that long after accepting it *)
+  s_chat : list N;            (* unsolicited messages (KeepAlive, reader events, reports) arriving at these times *)
+  s_period : option N         (* ... and at every positive multiple of this period, for ever *)
+}.
+
 Inductive behaviour :=
+| Script (s : script)          (* any host, as a script (see script_outcome below) *)
 | Refuse                       (* nothing listens: dial fails at once *)
 | Unreachable                  (* dial is never answered *)
 | Silent                       (* accepts, never writes (also: stalls inside the first frame) *)
@@ -54,21 +87,215 @@ Inductive behaviour :=
 | AnswerNoClose (c : caps_t) (i : ident_t)  (* answers everything, never closes the TCP connection *)
 | Answer (c : caps_t) (i : ident_t).        (* answers everything and closes *)
 
+(* ---- timers and one switch of the code ----
+   dial          : net.DialTimeout(timeout)
+   read_deadline : deadline re-armed before every message read from the probe connection
+                   (llrp.WithTimeout; also bounds each step of version negotiation). The code before
+                   the fix e383910 set none: None.
+   send_timeout  : the 20 s context of the request goroutine (sendTimeout)
+   force_close   : after a Shutdown that FAILED (CLOSE_CONNECTION refused, answered with something
+                   else, not answered before the context ended) the request goroutine closes the
+                   client itself (`_ = c.Close()`), which is what lets Connect return. *)
+Record timers := mk_timers { dial : N; read_deadline : option N; send_timeout : N; force_close : bool }.
+
+Definition min_opt (a : option N) (b : N) : N := match a with Some x => N.min x b | None => b end.
+
+(* ---- one probe against a script ----
+   optional times: None = never *)
+Definition opt_le (x : N) (lim : option N) : bool := match lim with Some l => x <=? l | None => true end.
+Definition opt_add (t : N) (r : option N) : option N := match r with Some x => Some (t + x) | None => None end.
+Definition opt_min (a b : option N) : option N :=
+  match a, b with Some x, Some y => Some (N.min x y) | Some x, None => Some x | None, _ => b end.
+Definition opt_ltb (a : option N) (x : N) : bool := match a with Some l => l <? x | None => false end.
+
+(* Connect's own part (checkInitialMessage, negotiate): wait for the answer to a request written at [t]
+   until [lim]: inl (arrival, ok), or inr (the moment the wait is given up; None: never) *)
+Definition step_until (a : answer) (t : N) (lim : option N) : (N * bool) + option N :=
+  match a with
+  | Ans d ok => if opt_le (t + d) lim then inl (t + d, ok)
+                else inr (match lim with Some l => Some (N.max t l) | None => None end)
+  | NoAns => inr (match lim with Some l => Some (N.max t l) | None => None end)
+  end.
+
+Inductive conn_res :=
+| ConnFail (t : option N)   (* Connect returns an error at t (None: it never returns) *)
+| ConnReady (t2 : N).       (* negotiation done: requests of the exchange may be written from t2 on *)
+
+(* [t0] the connection is accepted; [tc] = t0 + send_timeout, the end of the request goroutine's context.
+   The first message is read under the read deadline only; each step of negotiate() has a context of
+   its own (the client timeout) and also ends when the client is closed, which the request goroutine
+   does at tc when its Shutdown fails and force_close holds. *)
+Definition connect_phase (r : option N) (fc : bool) (s : script) (t0 tc : N) : conn_res :=
+  let nlim t := opt_min (opt_add t r) (if fc then Some tc else None) in
+  match step_until (s_hello s) t0 (opt_add t0 r) with
+  | inr t => ConnFail t
+  | inl (t1, false) => ConnFail (Some t1)
+  | inl (t1, true) =>
+    match step_until (s_version s) t1 (nlim t1) with
+    | inr t => ConnFail t
+    | inl (tv, false) => ConnFail (Some tv)
+    | inl (tv, true) =>
+      match s_setver s with
+      | None => ConnReady tv
+      | Some a =>
+        match step_until a tv (nlim tv) with
+        | inr t => ConnFail t
+        | inl (t2, false) => ConnFail (Some t2)
+        | inl (t2, true) => ConnReady t2
+        end
+      end
+    end
+  end.
+
+(* the request goroutine: a request written at [t] under a context that ends at [tc];
+   Some (arrival, ok) iff a complete reply arrives before the context ends *)
+Definition ask (a : answer) (t tc : N) : option (N * bool) :=
+  if tc <=? t then None else
+  match a with Ans d ok => if t + d <? tc then Some (t + d, ok) else None | NoAns => None end.
+(* a reply that comes after the context ended still arrives (and is discarded by the read loop) *)
+Definition late_arrival (a : answer) (t tc : N) : list N :=
+  if tc <=? t then [] else match a with Ans d _ => [t + d] | NoAns => [] end.
+
+Record exch := mk_exch {
+  e_arrivals : list N;      (* when replies of the exchange arrive *)
+  e_close : option N;       (* when the client is closed by the request goroutine; None: never *)
+  e_rclosed : option N;     (* when a CLOSE_CONNECTION_RESPONSE (whatever its status) arrived: from then on the end
+                               of the stream (the host hangs up) no longer ends the read loop, it waits for the
+                               client to be closed; an expired deadline still ends it *)
+  e_fin : bool;             (* the host closes the TCP connection at that moment *)
+  e_ident : bool;           (* an Identification was received *)
+  e_caps : bool             (* GeneralDeviceCapabilities were received *)
+}.
+
+(* deferred Shutdown at [t]: CLOSE_CONNECTION under what is left of the context; success closes the
+   client; failure closes it only if force_close *)
+Definition shutdown (fc : bool) (s : script) (t tc : N) (arr : list N) (gi gc : bool) : exch :=
+  match ask (s_close s) t tc with
+  | Some (u, true) => mk_exch (u :: arr) (Some u) (Some u) (s_fin s) gi gc
+  | Some (u, false) => mk_exch (u :: arr) (if fc then Some u else None)
+                               (if s_close_other s then None else Some u) false gi gc
+  | None => mk_exch (late_arrival (s_close s) t tc ++ arr) (if fc then Some (N.max t tc) else None)
+                    (match late_arrival (s_close s) t tc, s_close s with
+                     | u :: _, Ans _ ok => if ok || negb (s_close_other s) then Some u else None
+                     | _, _ => None
+                     end) false gi gc
+  end.
+
+Definition exchange (fc : bool) (s : script) (t2 tc : N) : exch :=
+  match ask (s_config s) t2 tc with
+  | Some (u, true) =>
+    match ask (s_caps s) u tc with
+    | Some (w, true) => shutdown fc s w tc [w; u] true true
+    | Some (w, false) => shutdown fc s w tc [w; u] true false
+    | None => shutdown fc s (N.max u tc) tc (late_arrival (s_caps s) u tc ++ [u]) true false
+    end
+  | Some (u, false) => shutdown fc s u tc [u] false false
+  | None => shutdown fc s (N.max t2 tc) tc (late_arrival (s_config s) t2 tc) false false
+  end.
+
+(* the read loop (handleIncoming): every complete message re-arms the read deadline; the loop ends by
+   itself only when [r] passes without one. Arrivals: the listed ones [E] (absolute) and t0 + k*p, k >= 1. *)
+Definition next_listed (E : list N) (t : N) : option N :=
+  fold_right (fun x acc => if t <=? x then opt_min (Some x) acc else acc) None E.
+Definition next_periodic (p : option N) (t0 t : N) : option N :=
+  match p with
+  | Some q => if q =? 0 then None else Some (t0 + q * N.max 1 ((t - t0 + q - 1) / q))
+  | None => None
+  end.
+Definition next_arrival (E : list N) (p : option N) (t0 t : N) : option N :=
+  opt_min (next_listed E t) (next_periodic p t0 t).
+
+(* unsolicited traffic more often than the read deadline: the deadline is pushed out for ever *)
+Definition chatty (p : option N) (r : N) : bool :=
+  match p with Some q => (0 <? q) && (q <=? r) | None => false end.
+
+Fixpoint insert_sorted (x : N) (l : list N) : list N :=
+  match l with [] => [x] | y :: l' => if x <=? y then x :: l else y :: insert_sorted x l' end.
+Definition sort_times (l : list N) : list N := fold_right insert_sorted [] l.
+
+(* Periodic traffic that is NOT chatty (two periodic arrivals are more than r apart): between two listed
+   arrivals at most one periodic arrival can re-arm the deadline. [via_periodic]: the deadline in force after
+   an arrival at [la] if no listed arrival comes. *)
+Definition via_periodic (p : option N) (t0 r la : N) : N :=
+  match next_periodic p t0 (la + 1) with
+  | Some q => if q <=? la + r then q + r else la + r
+  | None => la + r
+  end.
+
+(* the moment the deadline fires, walking the listed arrivals [E] (sorted) from the last arrival [la] *)
+Fixpoint loop_death (E : list N) (p : option N) (t0 r la : N) : N :=
+  match E with
+  | [] => via_periodic p t0 r la
+  | x :: rest => if x <=? la then loop_death rest p t0 r la
+                 else if x <=? via_periodic p t0 r la then loop_death rest p t0 r x
+                 else via_periodic p t0 r la
+  end.
+
+(* when a read of the loop fails by the deadline, if nobody closes the client first; None: never *)
+Definition reader_death (E : list N) (p : option N) (t0 : N) (r : option N) (t2 : N) : option N :=
+  match r with
+  | None => None
+  | Some r => if chatty p r then None else Some (loop_death (sort_times E) p t0 r t2)
+  end.
+
+Record outcome := mk_outcome { o_time : option N; o_info : option info }.
+
+(* probe(host): duration (None: it never returns) and what it returns.
+   - the dial is bounded by [dial];
+   - if Connect fails by itself (first message, negotiation) probe returns the error then;
+   - otherwise the request goroutine runs the exchange and ends with Shutdown; Connect returns
+     * when a read on the connection fails first ([dead]: deadline without traffic, or the host hangs up):
+       an error;
+     * else, once the client has been closed at [x]: when the read loop next looks at it — at the next
+       message, when the host hangs up, or when the deadline armed at most r before x fires —, and probe
+       goes on to build its result from what was received;
+     * if nobody ever closes the client: only when a read fails — and if that failure is the end of the
+       stream after a CLOSE_CONNECTION_RESPONSE has been seen, not even then (the read loop then waits
+       for the client to be closed). *)
+Definition script_outcome (tm : timers) (s : script) : outcome :=
+  let r := read_deadline tm in
+  let fc := force_close tm in
+  match s_dial s with
+  | DialRefused => mk_outcome (Some 0) None
+  | DialNever => mk_outcome (Some (dial tm)) None
+  | DialAccept d =>
+    if dial tm <? d then mk_outcome (Some (dial tm)) None else
+    let t0 := d in
+    let tc := t0 + send_timeout tm in
+    let hang := opt_add t0 (s_hangup s) in
+    match connect_phase r fc s t0 tc with
+    | ConnFail t => mk_outcome (opt_min t hang) None
+    | ConnReady t2 =>
+      let e := exchange fc s t2 tc in
+      let E := e_arrivals e ++ map (N.add t0) (s_chat s) in
+      let rdead := reader_death E (s_period s) t0 r t2 in
+      let dead := opt_min rdead hang in
+      match e_close e with
+      | None => mk_outcome (match e_rclosed e with
+                            | Some u => if opt_ltb dead u then dead else
+                                        match hang with
+                                        | Some hg => if opt_ltb rdead hg then rdead else None
+                                        | None => rdead
+                                        end
+                            | None => dead
+                            end) None
+      | Some x =>
+        if opt_ltb dead x then mk_outcome dead None
+        else
+          let nx := if e_fin e then Some x else next_arrival E (s_period s) t0 (x + 1) in
+          mk_outcome (opt_min (opt_min dead nx) (opt_add x r))
+                     (if e_ident e then probe_info (if e_caps e then s_capsv s else None) (s_ident s) else None)
+      end
+    end
+  end.
+
 (* what probe returns if it returns *)
-Definition probe_result (b : behaviour) : option info :=
+Definition probe_result (tm : timers) (b : behaviour) : option info :=
   match b with
+  | Script s => o_info (script_outcome tm s)
   | Answer c i | AnswerNoClose c i => probe_info c i
   | _ => None
   end.
-
-(* ---- timers ----
-   dial          : net.DialTimeout(timeout)
-   read_deadline : deadline on reads of the probe connection. The unchanged code sets none
-                   (llrp.NewClient without WithTimeout, no conn.SetDeadline): None.
-   send_timeout  : the 20 s context of the request goroutine (sendTimeout) *)
-Record timers := mk_timers { dial : N; read_deadline : option N; send_timeout : N }.
-
-Definition min_opt (a : option N) (b : N) : N := match a with Some x => N.min x b | None => b end.
 
 (* duration of one probe; None = it never returns.
    - Silent: Connect sits in checkInitialMessage's read; only a read deadline ends it.
@@ -76,9 +303,11 @@ Definition min_opt (a : option N) (b : N) : N := match a with Some x => N.min x 
      expires and it closes the client (send_timeout), or earlier with a read deadline/client timeout.
    - StallExchange / AnswerNoClose: the request goroutine gives up after send_timeout at the latest
      and closes the client, but Connect then waits (wg.Wait) for the reader goroutine, which sits in a
-     read on the connection: only a read deadline ends it. *)
+     read on the connection: only a read deadline ends it.
+   (these named behaviours send nothing unasked; hosts that do are Scripts) *)
 Definition probe_time (tm : timers) (b : behaviour) : option N :=
   match b with
+  | Script s => o_time (script_outcome tm s)
   | Refuse | Garbage | Answer _ _ => Some 0
   | Unreachable => Some (dial tm)
   | Silent => read_deadline tm
@@ -86,9 +315,10 @@ Definition probe_time (tm : timers) (b : behaviour) : option N :=
   | StallExchange | AnswerNoClose _ _ => read_deadline tm
   end.
 
-(* one probe's allowance: dial + the longer of the two exchange timers *)
+(* one probe's allowance: the dial, the exchange budget, and four read deadlines (first message, two
+   negotiation steps, and the one the read loop may need to notice that the client was closed) *)
 Definition allowance (tm : timers) : N :=
-  dial tm + N.max (send_timeout tm) (match read_deadline tm with Some r => r | None => 0 end).
+  dial tm + send_timeout tm + 4 * (match read_deadline tm with Some r => r | None => 0 end).
 
 (* ---- a worker ---- *)
 Record wstate := mk_wstate {
@@ -115,7 +345,7 @@ Definition worker_step (tm : timers) (dl : N) (m : dev_map) (port : N) (hosts : 
       | None => mk_wstate None false (a :: probed st) (t :: dial_times st) (reported st)
       | Some d =>
         mk_wstate (Some (t + d)) false (a :: probed st) (t :: dial_times st)
-                  (match probe_result (hosts a) with
+                  (match probe_result tm (hosts a) with
                    | Some i => (a, i) :: reported st
                    | None => reported st
                    end)
@@ -161,4 +391,6 @@ Definition discovered (devs : list device) (rep : list (N * info)) : list (N * i
   filter (fun r => negb (name_registered devs (i_name (snd r)))) rep.
 
 (* the timers of the code as it is (timeout t, sendTimeout s) *)
-Definition go_timers (t s : N) : timers := mk_timers t None s.
+Definition go_timers (t s : N) : timers := mk_timers t None s true.
+(* the code since e383910: llrp.WithTimeout(timeout) — the read deadline is the probe timeout *)
+Definition go_timers_deadline (t s : N) : timers := mk_timers t (Some t) s true.
